@@ -33,6 +33,7 @@ ASSUMPTIONS = [
     'map and column table; one batch',
     'float arithmetic is exact rational arithmetic; NaN only arises from 0/0 of concrete zeros',
     'forms added after seeding rounds: a second get_amplitudes_true call on the same model; sampling rates 1000, 30000 and 2500 Hz',
+    'round 7: a lone spike with positive features (finite depth expected); a NaN depth where a finite one is expected is a failed obligation',
 ]
 STUBS = []
 OUTSIDE = ['float rounding', 'get_depths batching beyond one batch of 50000 spikes', 'symbolic whitening']
